@@ -7,7 +7,8 @@
 #endif
 #define NP (L + 1)
 typedef uintptr_t mptr;         /* marked_ptr<node,1> / concurrent_ptr cell: node address | delete mark (bit 0) */
-typedef int hkey;               /* Key = int, values symbolic */
+typedef signed char hkey;        /* Key: only compared (std::less, ==); 8-bit values realise every order type of the <= L+2 keys involved */
+hkey nondet_key(void);
 struct node { hkey key; mptr next; };
 struct hms { mptr head; };
 struct guard { mptr ptr; };     /* guard_ptr: only written by the contract stubs below */
@@ -18,7 +19,8 @@ struct iter { struct hms* list; struct find_info info; };
 static void mon_access(const void* addr);
 static void mon_cas(const void* addr, mptr e, mptr d, _Bool ok, int o);
 static void mon_store(const void* addr, mptr v, int o);
-#define XV_ON_LOAD(addr, val, order) mon_access((const void*)(addr))
+static void mon_load(const void* addr, mptr v);
+#define XV_ON_LOAD(addr, val, order) (mon_access((const void*)(addr)), mon_load((const void*)(addr), (mptr)(val)))
 #define XV_ON_STORE(addr, val, order) (mon_access((const void*)(addr)), mon_store((const void*)(addr), (mptr)(val), (order)))
 #define XV_ON_CAS(addr, e, d, ok, order) (mon_access((const void*)(addr)), mon_cas((const void*)(addr), (mptr)(e), (mptr)(d), (ok), (order)))
 #include "xv.h"
@@ -32,6 +34,9 @@ unsigned char g_retired[NP];    /* number of reclaim() calls on the node */
 signed char g_cnt[NP];          /* number of guards of this handle protecting the node */
 _Bool g_unsafe;                 /* a dereference touched a node that is neither protected by a guard nor private */
 unsigned g_new, g_delete; _Bool g_bad_delete; unsigned in_newslot;
+unsigned char u_unlink[NP], u_retire[NP];   /* successful unlink CASes / reclaim() calls of the operation under test, per node */
+_Bool g_linked[NP];                         /* ghost: the node is reachable from head (maintained by the monitors and the environment) */
+unsigned char g_gen[NP];                    /* bumped when the environment re-uses the memory of a freed node */
 #define NADDR(i) ((mptr)((i) + 1) << 4)
 #define NIDX(p) ((size_t)(((p) >> 4) - 1))
 #define MP_mark(x) ((x) & (mptr)1)
@@ -66,7 +71,7 @@ static mptr n_new(hkey k) {
 static void n_delete(mptr n) {
   size_t i = NIDX(n); g_delete++;
   if (i >= NP || !g_alloc[i] || g_pub[i] || g_cnt[i] != 0) { g_bad_delete = 1; return; }
-  g_alloc[i] = 0; pool[i].key = nondet_int(); pool[i].next = nondet_uptr();
+  g_alloc[i] = 0; pool[i].key = nondet_key(); pool[i].next = nondet_uptr();
 }
 #define N_NEW(k) n_new(k)
 #define N_DELETE(n) n_delete(n)
@@ -87,7 +92,7 @@ static _Bool g_aie(struct guard* g, mptr* cell, mptr expected, int order) {
   if (v != expected) return 0;
   g->ptr = v; g_protect(v); return 1;
 }
-static void g_reclaim(struct guard* g) { size_t i = NIDX(MP_get(g->ptr)); if (MP_get(g->ptr) == 0 || i >= NP) { g_unsafe = 1; return; } if (g_retired[i] < 3) g_retired[i]++; g_reset(g); }
+static void g_reclaim(struct guard* g) { size_t i = NIDX(MP_get(g->ptr)); if (MP_get(g->ptr) == 0 || i >= NP) { g_unsafe = 1; return; } if (g_retired[i] < 3) g_retired[i]++; if (u_retire[i] < 3) u_retire[i]++; g_reset(g); }
 #define G_INIT(g) ((g).ptr = 0)
 #define G_DTOR(g) g_reset(&(g))
 #define G_RESET(g) g_reset(&(g))
@@ -104,20 +109,26 @@ static void g_reclaim(struct guard* g) { size_t i = NIDX(MP_get(g->ptr)); if (MP
 #define G_BOOL(g) ((g).ptr != 0)
 
 /* find_info / iterator: default member initialisers, member-wise (defaulted) copy / move, destructors */
-#define FI_INIT(info, p) do { (info).prev = (p); (info).next = 0; G_INIT((info).cur); G_INIT((info).save); } while (0)
-#define FI_DTOR(info) do { g_reset(&(info).save); g_reset(&(info).cur); } while (0)
-#define IT_DTOR(it) FI_DTOR((it).info)
+static void fi_init(struct find_info* i, mptr* p) { i->prev = p; i->next = 0; G_INIT(i->cur); G_INIT(i->save); }
+static void fi_dtor(struct find_info* i) { g_reset(&i->save); g_reset(&i->cur); }
 static void fi_move(struct find_info* d, struct find_info* s) {
   d->prev = s->prev; d->next = s->next; G_INIT(d->cur); G_INIT(d->save); g_move(&d->cur, &s->cur); g_move(&d->save, &s->save); }
 static void fi_copy(struct find_info* d, struct find_info* s) {
   d->prev = s->prev; d->next = s->next; G_INIT(d->cur); G_INIT(d->save); g_copy(&d->cur, &s->cur); g_copy(&d->save, &s->save); }
-#define IT_FROM_INFO(ret, self, info) do { (ret)->list = (self); fi_move(&(ret)->info, &(info)); } while (0)
-#define IT_MOVE_CTOR(ret, src) do { (ret)->list = (src).list; fi_move(&(ret)->info, &(src).info); } while (0)
-#define IT_COPY_CTOR(ret, src) do { (ret)->list = (src).list; fi_copy(&(ret)->info, &(src).info); } while (0)
+static void it_from_info(struct iter* r, struct hms* l, struct find_info* i) { r->list = l; fi_move(&r->info, i); }
+static void it_move_ctor(struct iter* r, struct iter* s) { r->list = s->list; fi_move(&r->info, &s->info); }
+static void it_copy_ctor(struct iter* r, struct iter* s) { r->list = s->list; fi_copy(&r->info, &s->info); }
 static void hms_iter_ctor(struct iter* self, struct hms* list, mptr* start);
-#define IT_CONSTRUCT(ret, self, start) do { (ret)->info.prev = (mptr*)nondet_uptr_p(); (ret)->info.next = 0; G_INIT((ret)->info.cur); G_INIT((ret)->info.save); \
-    hms_iter_ctor((ret), (self), (start)); } while (0)
 mptr* nondet_uptr_p(void);
+static void it_construct(struct iter* r, struct hms* l, mptr* start) {   /* prev has no default member initialiser */
+  r->info.prev = nondet_uptr_p(); r->info.next = 0; G_INIT(r->info.cur); G_INIT(r->info.save); hms_iter_ctor(r, l, start); }
+#define FI_INIT(info, p) fi_init(&(info), (p))
+#define FI_DTOR(info) fi_dtor(&(info))
+#define IT_DTOR(it) fi_dtor(&(it).info)
+#define IT_FROM_INFO(ret, self, info) it_from_info((ret), (self), &(info))
+#define IT_MOVE_CTOR(ret, src) it_move_ctor((ret), &(src))
+#define IT_COPY_CTOR(ret, src) it_copy_ctor((ret), &(src))
+#define IT_CONSTRUCT(ret, self, start) it_construct((ret), (self), (start))
 #define XV_INIT_list(self, v) (self)->list = *(v)
 static _Bool hms_find(struct hms* self, hkey key, struct find_info* info_p, int* backoff_p);
 static void hms_end(struct hms* self, struct iter* ret);
@@ -132,7 +143,8 @@ static _Bool hms_emplace_or_get(struct hms* self, struct iter* ret, hkey args);
  *   UNLINK cell (head or p->next, unmarked value c) : c -> MP_get(c->next), c->next marked; then c is retired by the same operation
  * and the expected value must be the one the operation validated last on that cell.  */
 unsigned n_link, n_mark, n_unlink, n_illegal; size_t last_linked, last_marked, last_unlinked; _Bool last_link_validated, last_unlink_validated;
-mptr* last_cas_cell; _Bool mon_on;
+hkey last_marked_key; unsigned char last_marked_gen; _Bool last_mark_was_read, mon_on;
+mptr rd_val[NP]; _Bool rd_has[NP];           /* per node: last value this operation read from its next field (load, or the value a failed CAS returned) */
 static void mon_store(const void* addr, mptr v, int o) {
   if (!mon_on) return;
   /* plain stores are only allowed on the private new node */
@@ -142,8 +154,11 @@ static void mon_store(const void* addr, mptr v, int o) {
   }
   n_illegal++;
 }
+static void mon_load(const void* addr, mptr v) { if (__CPROVER_POINTER_OBJECT(addr) == __CPROVER_POINTER_OBJECT(pool)) {
+    size_t i = __CPROVER_POINTER_OFFSET(addr) / sizeof(struct node); if (i < NP) { rd_val[i] = v; rd_has[i] = 1; } } }
 static void mon_cas(const void* addr, mptr e, mptr d, _Bool ok, int o) {
-  if (!mon_on || !ok) return;
+  if (!ok) { mon_load(addr, *(const mptr*)addr); return; }
+  if (!mon_on) return;
   _Bool is_head = (addr == (const void*)&the_set.head);
   size_t owner = NP;
   if (!is_head) {
@@ -152,18 +167,18 @@ static void mon_cas(const void* addr, mptr e, mptr d, _Bool ok, int o) {
     if (owner >= NP || !g_alloc[owner] || !g_pub[owner]) { n_illegal++; return; }
   }
   size_t di = NIDX(MP_get(d)), ei = NIDX(MP_get(e));
-  if (!is_head && d == (e | 1) && MP_mark(e) == 0) { n_mark++; last_marked = owner; return; }               /* MARK */
+  if (!is_head && d == (e | 1) && MP_mark(e) == 0) { n_mark++; last_marked = owner; last_marked_key = pool[owner].key; last_marked_gen = g_gen[owner]; last_mark_was_read = (rd_has[owner] && rd_val[owner] == e); return; }               /* MARK */
   if (MP_mark(e) != 0 || MP_mark(d) != 0) { n_illegal++; return; }
   if (d != 0 && di < NP && g_alloc[di] && !g_pub[di]) {                                                       /* LINK */
     _Bool okk = pool[di].next == e && (is_head || KEY_LESS(pool[owner].key, pool[di].key)) &&
                 (e == 0 || (ei < NP && g_alloc[ei] && KEY_LESS(pool[di].key, pool[ei].key)));
     if (!okk) { n_illegal++; return; }
-    g_pub[di] = 1; n_link++; last_linked = di;
+    g_pub[di] = 1; g_linked[di] = 1; n_link++; last_linked = di;
     last_link_validated = (aie_cell == (mptr*)addr && aie_val == e && aie_ok);
     return;
   }
   if (e != 0 && ei < NP && g_alloc[ei] && MP_mark(pool[ei].next) != 0 && d == MP_get(pool[ei].next)) {          /* UNLINK */
-    n_unlink++; last_unlinked = ei; return;
+    n_unlink++; last_unlinked = ei; g_linked[ei] = 0; if (u_unlink[ei] < 3) u_unlink[ei]++; return;
   }
   n_illegal++;
 }
@@ -175,22 +190,22 @@ unsigned char pre_kind[NP]; hkey pre_key[NP]; mptr pre_next[NP]; unsigned char p
 static void build(void) {
   mptr nxt = 0; hkey lastkey = 0; _Bool have = 0;
   for (int i = L - 1; i >= 0; i--) {
-    in_kind[i] = nondet_uchar(); in_key[i] = nondet_int(); in_mark[i] = nondet_bool(); in_unext[i] = nondet_uchar(); in_retired[i] = nondet_bool();
+    in_kind[i] = nondet_uchar(); in_key[i] = nondet_key(); in_mark[i] = nondet_bool(); in_unext[i] = nondet_uchar(); in_retired[i] = nondet_bool();
     XV_ASSUME(in_kind[i] <= K_UNLINKED && in_unext[i] <= NP);
-    pool[i].key = in_key[i]; g_cnt[i] = 0;
+    pool[i].key = in_key[i]; g_cnt[i] = 0; u_unlink[i] = 0; u_retire[i] = 0; g_gen[i] = 0; g_linked[i] = 0;
     if (in_kind[i] == K_LINKED) {
       XV_ASSUME(!have || in_key[i] < lastkey); lastkey = in_key[i]; have = 1;
-      pool[i].next = nxt | (mptr)in_mark[i]; nxt = NADDR(i); g_alloc[i] = 1; g_pub[i] = 1; g_retired[i] = 0;
+      pool[i].next = nxt | (mptr)in_mark[i]; nxt = NADDR(i); g_alloc[i] = 1; g_pub[i] = 1; g_retired[i] = 0; g_linked[i] = 1;
     } else if (in_kind[i] == K_UNLINKED) {      /* marked, spliced out earlier; its frozen next may point anywhere (even to re-used memory) */
       pool[i].next = (in_unext[i] == NP ? (mptr)0 : NADDR(in_unext[i])) | (mptr)1; g_alloc[i] = 1; g_pub[i] = 1; g_retired[i] = in_retired[i];
     } else {                                    /* never allocated, or retired and already freed: content is garbage */
       pool[i].next = nondet_uptr(); g_alloc[i] = 0; g_pub[i] = nondet_bool(); g_retired[i] = 0;
     }
   }
-  pool[L].key = nondet_int(); pool[L].next = nondet_uptr(); g_alloc[L] = 0; g_pub[L] = 0; g_retired[L] = 0; g_cnt[L] = 0;
+  pool[L].key = nondet_key(); pool[L].next = nondet_uptr(); g_alloc[L] = 0; g_pub[L] = 0; g_retired[L] = 0; g_cnt[L] = 0; u_unlink[L] = 0; u_retire[L] = 0; g_gen[L] = 0; g_linked[L] = 0;
   the_set.head = nxt; in_newslot = L;
   g_unsafe = 0; g_new = 0; g_delete = 0; g_bad_delete = 0; n_link = n_mark = n_unlink = n_illegal = 0; mon_on = 1;
-  aie_cell = 0; aie_ok = 0;
+  aie_cell = 0; aie_ok = 0; last_mark_was_read = 0; for (int i = 0; i < NP; i++) rd_has[i] = 0;
   xv_clock = nondet_u64(); XV_ASSUME(xv_clock < ((uint64_t)1 << 62));
 }
 static void snapshot(void) {
@@ -253,9 +268,119 @@ static _Bool iter_inv(struct iter* it) {
   return 1;
 }
 
-#ifdef XV_INT
+struct iter g_it; size_t in_j; unsigned in_start, in_cur;
 #include "env.h"
+/* ================================================================== INT: interference by other threads between the atomic accesses
+ * The environment is unbounded (env.h), so the retry loops are cut by invariants.  find is proved against its INT contract on its
+ * real text (h_find_int, function hms_find_cut = the same source text with the for loop and the retry label cut); the callers are
+ * then proved with find replaced by that contract (find_stub). */
+size_t in_m; unsigned char m_gen; _Bool m_marked;   /* ghost: an arbitrary node that is marked when find is entered */
+static _Bool guard_ok(struct guard* g) { size_t i = NIDX(MP_get(g->ptr)); return g->ptr == 0 || (MP_mark(g->ptr) == 0 && i < NP && g_alloc[i] && g_pub[i] && g_cnt[i] > 0); }
+static _Bool cnt_range(void) { _Bool ok = 1; for (int i = 0; i < NP; i++) if (g_cnt[i] < 0 || g_cnt[i] > 4) ok = 0; return ok; }
+/* (prev, save) as find requires and delivers them: start of the list, or the next field of a protected node with a smaller key */
+static _Bool fi_ok(struct find_info* f, hkey key) {
+  size_t s = NIDX(G_GET(f->save));
+  if (!guard_ok(&f->save) || !guard_ok(&f->cur)) return 0;
+  return G_GET(f->save) == 0 ? f->prev == &the_set.head : (f->prev == &pool[s].next && KEY_LESS(pool[s].key, key));
+}
+static _Bool retire_ok(size_t j) { return u_unlink[j] == u_retire[j]; }
+static _Bool mark_mono(void) { return !m_marked || g_gen[in_m] != m_gen || !g_alloc[in_m] || MP_mark(pool[in_m].next) != 0; }
+static _Bool int_common(void) { return int_wf() && cnt_range() && n_illegal == 0 && retire_ok(in_j) && !g_unsafe && !g_bad_delete && mark_mono(); }
+static void havoc_guards(void) { for (int i = 0; i < NP; i++) g_cnt[i] = (signed char)nondet_uchar(); }
+static void havoc_info(struct find_info* f) { f->prev = nondet_uptr_p(); f->next = nondet_uptr(); f->cur.ptr = nondet_uptr(); f->save.ptr = nondet_uptr(); }
+static void havoc_progress(void) { u_unlink[in_j] = nondet_uchar(); u_retire[in_j] = nondet_uchar(); n_unlink = nondet_uint(); for (int i = 0; i < NP; i++) { rd_val[i] = nondet_uptr(); rd_has[i] = nondet_bool(); }
+  aie_cell = nondet_uptr_p(); aie_val = nondet_uptr(); aie_ok = nondet_bool(); }
+/* an arbitrary reachable state for the INT harnesses: any well-formed list, nothing protected yet */
+static void int_init(void) {
+  for (int i = 0; i < NP; i++) { g_alloc[i] = 0; g_pub[i] = 0; g_cnt[i] = 0; g_linked[i] = 0; g_retired[i] = 0; u_unlink[i] = 0; u_retire[i] = 0; g_gen[i] = nondet_uchar();
+    pool[i].key = nondet_key(); pool[i].next = nondet_uptr(); }
+  in_newslot = L; g_new = 0; g_delete = 0; g_bad_delete = 0; g_unsafe = 0; n_link = n_mark = n_unlink = n_illegal = 0; mon_on = 1;
+  aie_cell = 0; aie_ok = 0; last_mark_was_read = 0; m_marked = 0; for (int i = 0; i < NP; i++) rd_has[i] = 0;
+  xv_clock = nondet_u64(); XV_ASSUME(xv_clock < ((uint64_t)1 << 62));
+  env_havoc();
+  in_j = nondet_size(); XV_ASSUME(in_j < NP);
+}
+static void int_guard(struct guard* g, unsigned idx) {      /* a guard the handle already holds: empty or any published, allocated node */
+  XV_ASSUME(idx <= NP);
+  if (idx == NP) { g->ptr = 0; return; }
+  XV_ASSUME(idx < NP && g_alloc[idx] && g_pub[idx]);
+  g->ptr = NADDR(idx); g_cnt[idx]++;
+}
+static void int_info(struct find_info* f, hkey key) {
+  in_start = nondet_uint(); in_cur = nondet_uint();
+  int_guard(&f->save, in_start); int_guard(&f->cur, in_cur); f->next = nondet_uptr();
+  f->prev = in_start == NP ? &the_set.head : &pool[in_start].next;
+  XV_ASSUME(fi_ok(f, key));
+}
+
+/* ---- cut points of hms_find_cut (the text of find): label retry, and the for loop */
+#define FIND_START_OK ((start == &the_set.head && start_guard.ptr == 0) || \
+   (start_guard.ptr != 0 && guard_ok(&start_guard) && start == &pool[NIDX(start_guard.ptr)].next && KEY_LESS(pool[NIDX(start_guard.ptr)].key, key)))
+#define FIND_CNT_OK (g_cnt[in_j] == (int)(guards_on(info_p, in_j) + (start_guard.ptr == NADDR(in_j))))
+#define XV_INV_RETRY (int_common() && n_link == 0 && n_mark == 0 && g_new == 0 && FIND_START_OK && FIND_CNT_OK && guard_ok(&(*info_p).cur) && guard_ok(&(*info_p).save))
+#define XV_HAVOC_RETRY env_havoc(); havoc_info(info_p); havoc_guards(); havoc_progress(); start = nondet_uptr_p(); start_guard.ptr = nondet_uptr()
+#define XV_INV_FINDLOOP (int_common() && n_link == 0 && n_mark == 0 && g_new == 0 && FIND_START_OK && FIND_CNT_OK && fi_ok(info_p, key) && \
+   MP_mark((*info_p).next) == 0 && word_ok((*info_p).next))
+#define XV_HAVOC_FINDLOOP env_havoc(); havoc_info(info_p) /* info: next prev cur save; expected GDEREF */; havoc_guards(); havoc_progress()
+
+/* ---- the INT contract of find(key, info, backoff) */
+static _Bool find_requires(struct find_info* f, hkey key) { return fi_ok(f, key); }
+/* ensures (at the return; the environment may act again before the caller's next access):
+ *  P1 (prev, save): head / the next field of a protected node with a smaller key
+ *  P2 cur: empty, or a protected node with key >= key; the result is true iff cur holds exactly that key
+ *  P3 info.next is unmarked: the value read from cur->next (recorded as the last-but-one read), 0 when cur is empty
+ *  P4 the pair (*prev, cur) is the one validated by the last acquire_if_equal
+ *  P5 only legal unlink steps, each followed by exactly one retire; no other writes; no guard leaked
+ *  P6 cur was seen unmarked during the call: it is not a node that was already marked when find was entered */
+static _Bool find_ensures(struct find_info* f, hkey key, _Bool r) {
+  size_t c = NIDX(G_GET(f->cur));
+  if (!fi_ok(f, key)) return 0;
+  if (G_GET(f->cur) != 0 && KEY_LESS(pool[c].key, key)) return 0;
+  if (r != (G_GET(f->cur) != 0 && !KEY_LESS(key, pool[c].key))) return 0;
+  if (MP_mark(f->next) != 0 || !word_ok(f->next) || (G_GET(f->cur) == 0 && f->next != 0)) return 0;
+  if (!(aie_ok && aie_cell == f->prev && aie_val == f->cur.ptr)) return 0;
+  if (G_GET(f->cur) != 0 && !(rd_has[c] && rd_val[c] == f->next)) return 0;
+  if (G_GET(f->cur) != 0 && m_marked && c == in_m && g_gen[in_m] == m_gen) return 0;
+  return 1;
+}
+#ifdef XV_INT
+static _Bool find_stub(struct hms* self, hkey key, struct find_info* f, int* bo) {
+  XV_OBL("hms.find.requires", find_requires(f, key));
+  /* P6 for every node: remember which nodes (identities) are marked on entry */
+  _Bool em[NP]; unsigned char eg[NP];
+  for (int i = 0; i < NP; i++) { em[i] = g_alloc[i] && g_pub[i] && MP_mark(pool[i].next) != 0; eg[i] = g_gen[i]; }
+  g_reset(&f->cur); g_reset(&f->save);
+  env_havoc();                                /* other threads, and find's own helping (unlink + retire of marked nodes = the environment's unlink step) */
+  unsigned s = nondet_uint(), c = nondet_uint();
+  int_guard(&f->save, s); int_guard(&f->cur, c);
+  f->prev = s == NP ? &the_set.head : &pool[s].next; f->next = nondet_uptr();
+  aie_ok = 1; aie_cell = f->prev; aie_val = f->cur.ptr;
+  if (c != NP) { rd_has[c] = 1; rd_val[c] = f->next; }
+  _Bool r = nondet_bool();
+  _Bool keep_m = m_marked; m_marked = 0;
+  XV_ASSUME(find_ensures(f, key, r));
+  m_marked = keep_m;
+  XV_ASSUME(c == NP || !(em[c] && eg[c] == g_gen[c]));
+  return r;
+}
+#undef HMS_FIND
+#undef IT_FIND
+#define HMS_FIND(self, key, info, backoff) find_stub((self), (key), &(info), &(backoff))
+#define IT_FIND(l, key, info, backoff) find_stub(&(l), (key), &(info), &(backoff))
 #endif
+
+/* ---- cut points of the callers' retry loops (INT variants *_i of the same source text) */
+#define NEW_PRIVATE(n, k) ((n) == NADDR(L) && g_alloc[L] && !g_pub[L] && pool[L].key == (k) && g_cnt[L] == 0 && g_new == 1 && g_delete == 0)
+#define XV_INV_EMPL (int_common() && n_link == 0 && n_mark == 0 && NEW_PRIVATE(n, args) && fi_ok(&info, args) && g_cnt[in_j] == (int)guards_on(&info, in_j))
+#define XV_HAVOC_EMPL env_havoc(); havoc_info(&info); havoc_guards(); havoc_progress(); pool[L].next = nondet_uptr() /* NDEREF n prev */
+#define XV_INV_ERASE (int_common() && n_link == 0 && n_mark == 0 && g_new == 0 && fi_ok(&info, key) && g_cnt[in_j] == (int)guards_on(&info, in_j))
+#define XV_HAVOC_ERASE env_havoc(); havoc_info(&info); havoc_guards(); havoc_progress() /* GDEREF cur next */
+#define ERIT_CUR (NIDX(G_GET(pos.info.cur)))
+#define XV_INV_ERIT (int_common() && n_link == 0 && n_mark == 0 && g_new == 0 && G_GET(pos.info.cur) != 0 && fi_ok(&pos.info, pool[ERIT_CUR].key) && \
+   word_ok(next) && rd_has[ERIT_CUR] && rd_val[ERIT_CUR] == next && g_cnt[in_j] == (int)(guards_on(&pos.info, in_j) + guards_on(&g_it.info, in_j)))
+#define XV_HAVOC_ERIT env_havoc(); next = nondet_uptr(); havoc_progress() /* GDEREF pos info cur */
+
+
 #include "lowered.h"
 
 /* ================================================================== SEQ harnesses */
@@ -264,7 +389,7 @@ hkey in_k; unsigned in_start, in_cur; size_t in_j;
 /* find(key, info, backoff) from any well-formed list and any info a caller can pass: start at head, or at a guarded node `save`
  * with key(save) < key (linked, or marked, or already unlinked); info.cur holds any leftover guard */
 void h_find(void) {
-  build(); in_k = nondet_int(); in_start = nondet_uint(); in_cur = nondet_uint(); in_j = nondet_size(); XV_ASSUME(in_j < NP);
+  build(); in_k = nondet_key(); in_start = nondet_uint(); in_cur = nondet_uint(); in_j = nondet_size(); XV_ASSUME(in_j < NP);
   struct find_info info; int bo = 0;
   info.next = nondet_uptr();
   give_guard(&info.save, in_start); give_guard(&info.cur, in_cur);
@@ -304,7 +429,7 @@ static _Bool no_guards(size_t j) { return g_cnt[j] == 0; }
 static size_t pre_node_of(hkey k) { size_t r = NP; for (int i = 0; i < NP; i++) if (pre_live(i) && pre_key[i] == k) r = i; return r; }
 
 void h_contains(void) {
-  build(); in_k = nondet_int(); in_j = nondet_size(); XV_ASSUME(in_j < NP);
+  build(); in_k = nondet_key(); in_j = nondet_size(); XV_ASSUME(in_j < NP);
   snapshot();
   _Bool r = hms_contains(&the_set, in_k);
   _Bool wf = walk();
@@ -317,7 +442,7 @@ void h_contains(void) {
 }
 
 void h_find_key(void) {
-  build(); in_k = nondet_int(); in_j = nondet_size(); XV_ASSUME(in_j < NP);
+  build(); in_k = nondet_key(); in_j = nondet_size(); XV_ASSUME(in_j < NP);
   snapshot();
   struct iter it;
   hms_find_key(&the_set, &it, in_k);
@@ -348,7 +473,7 @@ void h_begin(void) {
 
 hkey in_gk;
 void h_emplace_or_get(void) {
-  build(); in_k = nondet_int(); in_gk = nondet_int(); in_j = nondet_size(); XV_ASSUME(in_j < L);
+  build(); in_k = nondet_key(); in_gk = nondet_key(); in_j = nondet_size(); XV_ASSUME(in_j < L);
   snapshot();
   struct iter it;
   _Bool r = hms_emplace_or_get(&the_set, &it, in_k);
@@ -374,7 +499,7 @@ void h_emplace_or_get(void) {
 }
 
 void h_emplace(void) {
-  build(); in_k = nondet_int(); in_gk = nondet_int(); in_j = nondet_size(); XV_ASSUME(in_j < L);
+  build(); in_k = nondet_key(); in_gk = nondet_key(); in_j = nondet_size(); XV_ASSUME(in_j < L);
   snapshot();
   _Bool r = hms_emplace(&the_set, in_k);
   _Bool wf = walk();
@@ -386,7 +511,7 @@ void h_emplace(void) {
 }
 
 void h_erase(void) {
-  build(); in_k = nondet_int(); in_gk = nondet_int(); in_j = nondet_size(); XV_ASSUME(in_j < NP);
+  build(); in_k = nondet_key(); in_gk = nondet_key(); in_j = nondet_size(); XV_ASSUME(in_j < NP);
   snapshot();
   _Bool r = hms_erase(&the_set, in_k);
   _Bool wf = walk(); size_t t = pre_node_of(in_k);
@@ -450,7 +575,7 @@ void h_iter_inc(void) {
 }
 
 void h_erase_it(void) {
-  build(); in_gk = nondet_int(); in_j = nondet_size(); XV_ASSUME(in_j < NP);
+  build(); in_gk = nondet_key(); in_j = nondet_size(); XV_ASSUME(in_j < NP);
   any_iter(&g_it, 1);
   snapshot();
   size_t c0 = in_cur; hkey k0 = pre_key[c0]; _Bool c0_marked = MP_mark(pre_next[c0]) != 0;
@@ -496,4 +621,125 @@ void h_iter_copy(void) {
   }
   IT_DTOR(b); IT_DTOR(a);
   XV_OBL("hms.iter.copy.independent", g_cnt[in_j] == (int)guards_on(&g_it.info, in_j));
+}
+
+
+/* ================================================================== INT harnesses */
+#ifdef XV_INT
+static void pick_marked_ghost(void) {
+  in_m = nondet_size(); XV_ASSUME(in_m < NP);
+  m_marked = g_alloc[in_m] && g_pub[in_m] && MP_mark(pool[in_m].next) != 0; m_gen = g_gen[in_m];
+}
+#endif
+
+/* find on its real text, any interference: proves the INT contract (find_ensures) that the callers' runs assume */
+void h_find_int(void) {
+#ifdef XV_INT
+  int_init(); in_k = nondet_key();
+  struct find_info info; int bo = 0;
+  int_info(&info, in_k); pick_marked_ghost();
+  env_on = 1;
+  _Bool r = hms_find_cut(&the_set, in_k, &info, &bo);
+  env_on = 0;
+  XV_OBL("hms.find.ensures_int", find_ensures(&info, in_k, r));
+  XV_OBL("hms.find.commit", int_common() && n_link == 0 && n_mark == 0 && g_new == 0 && g_delete == 0);
+  XV_OBL("hms.find.guards", g_cnt[in_j] == (int)guards_on(&info, in_j));
+  XV_OBL("hms.find.safe", !g_unsafe);
+  if (r) XV_CANARY("find_int.true");
+  if (!r && G_GET(info.cur) == 0) XV_CANARY("find_int.false_end");
+  if (!r && G_GET(info.cur) != 0) XV_CANARY("find_int.false_greater");
+#endif
+}
+
+void h_emplace_int(void) {
+#ifdef XV_INT
+  int_init(); in_k = nondet_key(); pick_marked_ghost();
+  struct iter it;
+  env_on = 1;
+  _Bool r = hms_emplace_or_get_i(&the_set, &it, in_k);
+  env_on = 0;
+  size_t c = NIDX(G_GET(it.info.cur));
+  XV_OBL("hms.insert.commit", int_common() && n_mark == 0 && g_new == 1);
+  /* true iff this operation linked its node, by a legal LINK step (key absent at that instant) whose expected value is the one find validated */
+  if (r) XV_OBL("hms.insert.commit", n_link == 1 && last_linked == L && last_link_validated && g_delete == 0 && g_alloc[L] && g_pub[L] && pool[L].key == in_k && G_GET(it.info.cur) == NADDR(L));
+  else XV_OBL("hms.insert.commit", n_link == 0 && g_delete == 1 && !g_alloc[L] && G_GET(it.info.cur) != 0 && c < NP && g_alloc[c] && pool[c].key == in_k);
+  XV_OBL("hms.insert.iterator", fi_ok(&it.info, in_k) && it.list == &the_set);
+  XV_OBL("hms.insert.guards", g_cnt[in_j] == (int)guards_on(&it.info, in_j));
+  XV_OBL("hms.insert.safe", !g_unsafe);
+  if (r) XV_CANARY("insert_int.true"); else XV_CANARY("insert_int.false");
+#endif
+}
+
+void h_erase_int(void) {
+#ifdef XV_INT
+  int_init(); in_k = nondet_key(); pick_marked_ghost();
+  env_on = 1;
+  _Bool r = hms_erase_i(&the_set, in_k);
+  env_on = 0;
+  XV_OBL("hms.erase.commit", int_common() && n_link == 0 && g_new == 0 && g_delete == 0);
+  /* success iff this operation's own mark CAS succeeded, on a node with that key, expecting the value it read last from that cell */
+  XV_OBL("hms.erase.commit", r ? (n_mark == 1 && last_marked_key == in_k && last_mark_was_read) : n_mark == 0);
+  /* on return the marked node has been spliced out and retired, by this operation or by a helper */
+  if (r && g_gen[last_marked] == last_marked_gen) XV_OBL("hms.erase.unlinked_retired", !g_linked[last_marked] && (!g_alloc[last_marked] || g_retired[last_marked] == 1));
+  XV_OBL("hms.erase.guards", g_cnt[in_j] == 0);
+  XV_OBL("hms.erase.safe", !g_unsafe);
+  if (r && n_unlink == 0) XV_CANARY("erase_int.unlinked_by_helper");
+  if (r && n_unlink == 1) XV_CANARY("erase_int.unlinked_self");
+  if (!r) XV_CANARY("erase_int.false");
+#endif
+}
+
+void h_erase_it_int(void) {
+#ifdef XV_INT
+  int_init();
+  in_cur = nondet_uint(); XV_ASSUME(in_cur < NP && g_alloc[in_cur] && g_pub[in_cur]);
+  hkey k0 = pool[in_cur].key; size_t c0 = in_cur; unsigned char gen0 = g_gen[c0]; _Bool was_marked = MP_mark(pool[c0].next) != 0; _Bool was_linked = g_linked[c0];
+  g_it.list = &the_set; g_it.info.next = nondet_uptr();
+  in_start = nondet_uint(); int_guard(&g_it.info.save, in_start); int_guard(&g_it.info.cur, in_cur);
+  g_it.info.prev = in_start == NP ? &the_set.head : &pool[in_start].next;
+  XV_ASSUME(fi_ok(&g_it.info, k0));
+  pick_marked_ghost();
+  struct iter pos, ret; IT_COPY_CTOR(&pos, g_it);
+  env_on = 1;
+  hms_erase_it_i(&the_set, &ret, pos);
+  env_on = 0;
+  size_t nc = G_GET(ret.info.cur) == 0 ? NP : NIDX(G_GET(ret.info.cur));
+  XV_OBL("hms.erase.commit", int_common() && n_link == 0 && g_new == 0 && g_delete == 0);
+  XV_OBL("hms.iter.erase.exact", n_mark <= 1 && (n_mark == 0 || (last_marked == c0 && last_mark_was_read)) && (n_mark == 1 || was_marked || 1) &&
+         g_alloc[c0] && g_gen[c0] == gen0 && MP_mark(pool[c0].next) != 0 && pool[c0].key == k0);
+  XV_OBL("hms.iter.erase.unlinked_retired", !g_linked[c0] && (!was_linked || g_retired[c0] == 1));
+  XV_OBL("hms.iter.erase.next", ret.list == &the_set && nc != c0 && (nc == NP || (guard_ok(&ret.info.cur) && !KEY_LESS(pool[nc].key, k0))));
+  XV_OBL("hms.iter.erase.guards", g_cnt[in_j] == (int)(guards_on(&g_it.info, in_j) + guards_on(&ret.info, in_j)));
+  XV_OBL("hms.iter.erase.safe", !g_unsafe);
+  if (n_mark == 1 && n_unlink == 1) XV_CANARY("erase_it_int.direct");
+  if (n_mark == 1 && n_unlink == 0) XV_CANARY("erase_it_int.refind");
+  if (n_mark == 0) XV_CANARY("erase_it_int.marked_by_other");
+#endif
+}
+
+void h_iter_inc_int(void) {
+#ifdef XV_INT
+  int_init();
+  in_cur = nondet_uint(); XV_ASSUME(in_cur < NP && g_alloc[in_cur] && g_pub[in_cur]);
+  hkey k0 = pool[in_cur].key; size_t c0 = in_cur; unsigned char gen0 = g_gen[c0];
+  g_it.list = &the_set; g_it.info.next = nondet_uptr();
+  in_start = nondet_uint(); int_guard(&g_it.info.save, in_start); int_guard(&g_it.info.cur, in_cur);
+  g_it.info.prev = in_start == NP ? &the_set.head : &pool[in_start].next;
+  XV_ASSUME(fi_ok(&g_it.info, k0));
+  pick_marked_ghost();
+  env_on = 1;
+  hms_iter_inc(&g_it);
+  env_on = 0;
+  size_t nc = G_GET(g_it.info.cur) == 0 ? NP : NIDX(G_GET(g_it.info.cur));
+  /* no key is yielded twice unless re-inserted: the iterator leaves the node it stood on (same memory is fine only if it was freed and re-used) */
+  XV_OBL("hms.iter.inc.progress", nc != c0 || g_gen[c0] != gen0);
+  XV_OBL("hms.iter.inc.progress", nc == NP || (guard_ok(&g_it.info.cur) && !KEY_LESS(pool[nc].key, k0)));
+  XV_OBL("hms.iter.inc.position", g_it.list == &the_set && (nc == NP ? guard_ok(&g_it.info.save) : fi_ok(&g_it.info, pool[nc].key)));
+  XV_OBL("hms.find.commit", int_common() && n_link == 0 && n_mark == 0 && g_new == 0);
+  XV_OBL("hms.iter.inc.guards", g_cnt[in_j] == (int)guards_on(&g_it.info, in_j));
+  XV_OBL("hms.iter.inc.safe", !g_unsafe);
+  if (nc != NP && aie_cell == &pool[c0].next) XV_CANARY("inc_int.fast");
+  if (nc != NP && aie_cell != &pool[c0].next) XV_CANARY("inc_int.slow");
+  if (nc == NP) XV_CANARY("inc_int.end");
+#endif
 }
